@@ -153,6 +153,13 @@ def run(ctx):
             if r3 != r:
                 res.violation(case, "beat_at depends on unrelated earlier events (redundant BPM changes inserted)", beat=str(b), qtag=q, tag=a,
                               impl=[str(r), str(r3)], bpms=gen.td_show(td3)["bpms"]); break
+    for f in ctx.findings:
+        if f["id"] == "C12-half-tick-tie":
+            from decimal import Decimal
+            td0 = {"bpms": [(Fraction(0), Decimal(60))], "stops": [], "delays": [], "warps": [], "offset": Decimal(0)}
+            td1 = dict(td0, bpms=[(Fraction(0), Decimal(60)), (Fraction(1, 48), Decimal(60))])
+            fails = c11.engine(td0).beat_at(0.09375) != c11.engine(td1).beat_at(0.09375)
+            res.findings_seen.append((f["id"], fails, "%s: %s" % (f["id"], f["what"][:230])))
     res.assumptions = ["float rounding in beats_until is not modelled; symbolic boundary queries keep both sides on their own boundary",
                        "'beat that no warp skips over' is read as b outside the union of warp segments (DESIGN 4.12)"]
     return res
